@@ -33,6 +33,7 @@ def plan(tier, seed):
     return ([{"kind": "collections", "n": 500 if tier == "quick" else 4000} for _ in range(n)]
             + [{"kind": "stats", "n": 60 if tier == "quick" else 600} for _ in range(n // 2)]
             + [{"kind": "numeric", "n": 1500 if tier == "quick" else 20000} for _ in range(n // 4)]
+            + [{"kind": "histories", "n": 300 if tier == "quick" else 3000} for _ in range(2 if tier == "quick" else 8)]
             + [{"kind": "bits"}])
 
 
@@ -149,6 +150,10 @@ def run_collections(spec, ctx):
         R.expect("%s%sunique(%s)" % (pre, q, la), L(rv.dedupe(a)), "unique", ("unique", la), modern=modern)
         R.expect("%s%s(%s)" % (pre, "List->reverse" if modern else "reverse_list", la), L(list(reversed(a))), "reverse", ("reverse", la), modern=modern)
         nested = [L(gen_list(r, kind, 3)) if r.random() < 0.4 else gen_elem(r, kind) for _ in range(r.randint(0, 5))]
+        if r.random() < 0.3 and nested:
+            # elements that are neither lists nor scalars of the list's kind stay elements: sets, maps, NULL, nested-nested lists
+            nested[r.randrange(len(nested))] = r.choice([rv.NULL, SET(gen_list(r, kind, 3)), ("map", ((("int", 1), ("int", 2)),)),
+                                                         L([L(gen_list(r, kind, 2))]), ("str", "ab"), ("bool", True)])
         flat = []
         for x in nested:
             if x[0] == "list":
@@ -319,13 +324,54 @@ def run_bits(spec, ctx):
     ctx.sample({"example": "bit_rotate_left(0x80000000, 1) == 1"})
 
 
+def run_histories(spec, ctx):
+    """set functions on sets that were read, then edited (same size or not), then used: the functions must see the
+    set as it is now"""
+    R = Runner(ctx)
+    r = ctx.rng
+    for _ in range(spec["n"]):
+        items = r.sample(range(1, 12), r.randint(2, 5))
+        other = r.sample(range(1, 12), r.randint(1, 4))
+        cur = list(items)
+        steps = ["def s = << %s >>" % ", ".join(map(str, items)), "def t = << %s >>" % ", ".join(map(str, other))]
+        steps.append(r.choice(["union(s, <<>>)", "string(s)", "[x for x in s]", "list(s)", "for x in s do x end", "length(s)", "intersection(s, t)"]))
+        for _k in range(r.randint(1, 4)):
+            if cur and r.random() < 0.5:
+                x = r.choice(cur)
+                cur.remove(x)
+                steps.append("remove(s, %d)" % x)
+            else:
+                x = r.choice([v for v in range(1, 14) if v not in cur])
+                cur.append(x)
+                steps.append(r.choice(["append(s, %d)", "s !> append(%d)"]) % x)
+            if r.random() < 0.3:
+                steps.append(r.choice(["string(s)", "list(s)", "diff(s, t)"]))
+        pre = "; ".join(steps) + "; "
+        A, B = [("int", v) for v in cur], [("int", v) for v in other]
+        R.expect(pre + "union(s, t)", SET(A + B), "history:union", ("hist-union", pre), exact_kinds=False)
+        R.expect(pre + "intersection(s, t)", SET([x for x in A if rv.member(x, B)]), "history:intersection", ("hist-inter", pre), exact_kinds=False)
+        R.expect(pre + "diff(s, t)", SET([x for x in A if not rv.member(x, B)]), "history:diff", ("hist-diff", pre), exact_kinds=False)
+        R.expect(pre + "symmetric_diff(t, s)", SET([x for x in A if not rv.member(x, B)] + [x for x in B if not rv.member(x, A)]),
+                 "history:symmetric_diff", ("hist-symd", pre), exact_kinds=False)
+        R.expect(pre + "sorted(s)", L(sorted(A, key=lambda v: v[1])), "history:sorted", ("hist-sorted", pre))
+        R.expect(pre + "[sum(list(s)), length(s), min(list(s)), max(list(s))]" if cur else pre + "[sum(list(s)), length(s)]",
+                 L([("int", sum(cur)), ("int", len(cur))] + ([("int", min(cur)), ("int", max(cur))] if cur else [])),
+                 "history:aggregate", ("hist-agg", pre))
+        ctx.count("history_programs")
+    ctx.sample({"history": pre + "diff(s, t)"})
+
+
 def run_shard(spec, ctx):
+    if spec["kind"] == "histories":
+        return run_histories(spec, ctx)
     {"collections": run_collections, "stats": run_stats, "numeric": run_numeric, "bits": run_bits}[spec["kind"]](spec, ctx)
 
 
 def finalize(merged, tier):
     c = merged["counters"]
     reasons = []
+    if c.get("history_programs", 0) == 0:
+        reasons.append("no set-history programs")
     if c.get("evaluations", 0) == 0 or c.get("permutation_groups", 0) == 0:
         reasons.append("no evaluations / permutation groups")
     if not any(ex.get("bits_done") for spec, ex in merged["shard_docs"]):
